@@ -116,9 +116,11 @@ Match(r, b) ==
   LET ws == r.wA \cup {OutScript(o) : o \in r.wO}
       txs == TxsOf(b)
   IN  \E i \in 1..Len(txs) :
-        \/ (TxPays[txs[i]] # 0 /\ TxPays[txs[i]] \in ws)
-        \/ (TxSpends[txs[i]] # 0 /\ OutScript(TxSpends[txs[i]]) # 0
-            /\ OutScript(TxSpends[txs[i]]) \in ws)
+        LET t == txs[i]
+        IN  \/ \E k \in 1..Len(TxOuts[t]) : TxOuts[t][k] # 0 /\ TxOuts[t][k] \in ws
+            \/ \E k \in 1..Len(TxIns[t]) : /\ TxIns[t][k] # 0
+                                            /\ OutScript(TxIns[t][k]) # 0
+                                            /\ OutScript(TxIns[t][k]) \in ws
 
 ----------------------------------------------------------------------------
 \* updateFilter :1252.  Returns [r, rew]: rew = the goroutine is now parked in
